@@ -461,7 +461,9 @@ sc_MPI_Pack (const void *inbuf, int incount, sc_MPI_Datatype datatype,
   SC_ASSERT (position != NULL);
 
   mpiret = sc_MPI_Pack_size (incount, datatype, comm, &size);
-  SC_CHECK_MPI (mpiret);
+  if (mpiret != sc_MPI_SUCCESS) {
+    return mpiret;
+  }
 
   /* Check that we have enough space to pack the datatypes */
   if (size > outsize - *position) {
@@ -487,7 +489,9 @@ sc_MPI_Unpack (const void *inbuf, int insize, int *position,
   SC_ASSERT (outcount >= 0);
 
   mpiret = sc_MPI_Pack_size (outcount, datatype, comm, &size);
-  SC_CHECK_MPI (mpiret);
+  if (mpiret != sc_MPI_SUCCESS) {
+    return mpiret;
+  }
 
   /* Check that the message is big enough for the datatypes that we want */
   if (size > insize - *position) {
@@ -512,6 +516,10 @@ sc_MPI_Pack_size (int incount, sc_MPI_Datatype datatype, sc_MPI_Comm comm,
 
   mpiret = sc_MPI_Type_size (datatype, size);
   SC_CHECK_MPI (mpiret);
+  if (incount > 0 && *size > INT_MAX / incount) {
+    /* the number of bytes is not representable */
+    return sc_MPI_ERR_NO_SPACE;
+  }
   *size *= incount;
 
   return sc_MPI_SUCCESS;
